@@ -262,6 +262,8 @@ class Collector(object):
         for i in xrange(len(items)):
             if items[i][1] == global_docnum:
                 items.pop(i)
+                # The document no longer counts as matched
+                self.docset.discard(global_docnum)
                 return
         raise KeyError(global_docnum)
 
@@ -491,6 +493,8 @@ class TopCollector(ScoredCollector):
     def remove(self, global_docnum):
         negated = 0 - global_docnum
         items = self.items
+        # The document no longer counts as collected
+        self.total -= 1
 
         # Remove the document if it's on the list (it may not be since
         # TopCollector forgets documents that don't make the top N list)
@@ -953,7 +957,9 @@ class CollapseCollector(WrappingCollector):
 
     def count(self):
         if self.child.computes_count():
-            return self.child.count() - self.collapsed_total
+            # Collapsed documents were either never passed to the child
+            # collector or removed from it again
+            return self.child.count()
         else:
             return ilen(self.all_ids())
 
@@ -998,6 +1004,9 @@ class CollapseCollector(WrappingCollector):
             # the "least-best" document
             # Tell the child collector to remove the document
             child.remove(best.pop()[1])
+            # The replaced document was eliminated by collapsing too
+            collapsed_counts[ckey] += 1
+            self.collapsed_total += 1
             add = True
 
         if add:
